@@ -529,6 +529,9 @@ def run(ch: Choices, opts: Dict[str, Any]) -> Dict[str, Any]:
             sock = exr._get_register(aid, command.epr_socket_id)
             ent = exr._get_register(aid, command.ent_results_array)
             qa = exr._get_register(aid, command.qubit_addr_array)
+            if ent not in exr._app_arrays[aid]._arrays:
+                raise Violation("issue", f"issue|request-accepted-without-a-result-array|{mn}",
+                                {"app": aid, "pc": pc, "array": ent, "trace": _tail(trace)})
             n = len(exr._app_arrays[aid]._arrays[ent]) // 10
             role = "create" if mn == "create_epr" else "recv"
             purpose = node.stack.pfun(sock, remote)
@@ -559,6 +562,9 @@ def run(ch: Choices, opts: Dict[str, Any]) -> Dict[str, Any]:
             if mn == "wait_single":
                 i = exr._get_register(aid, command.entry.index)
                 w_addr = command.entry.address.address
+                if w_addr not in arrs or not (0 <= i < len(arrs[w_addr])):
+                    raise Violation("wait", f"wait|resumed-before-condition|{mn}",
+                                    {"app": aid, "pc": pc, "array": w_addr, "index": i, "trace": _tail(trace)})
                 vals = [arrs[w_addr][i]]
                 ok = vals[0] is not None
                 need = i // 10 + 1
@@ -567,6 +573,9 @@ def run(ch: Choices, opts: Dict[str, Any]) -> Dict[str, Any]:
                 a0 = exr._get_register(aid, command.slice.start)
                 a1 = exr._get_register(aid, command.slice.stop)
                 w_addr = command.slice.address.address
+                if w_addr not in arrs:
+                    raise Violation("wait", f"wait|resumed-before-condition|{mn}",
+                                    {"app": aid, "pc": pc, "array": w_addr, "trace": _tail(trace)})
                 vals = arrs[w_addr][a0:a1]
                 ok = all(v is not None for v in vals) if mn == "wait_all" else any(v is not None for v in vals)
                 need = (a1 + 9) // 10 if mn == "wait_all" else a0 // 10 + 1
@@ -706,6 +715,11 @@ def run(ch: Choices, opts: Dict[str, Any]) -> Dict[str, Any]:
                         bump(probes, "request-refused-by-stack")
                         trace.add("refused", aid, k)
                         break
+                    if "simulated fault" in str(e):
+                        # the stub stack refuses only the one request that carries the tag: another request reached it
+                        # with that field
+                        raise Violation("fault", "fault|stack-refused-a-request-that-did-not-carry-the-tag",
+                                        {"app": aid, "sub": k, "error": str(e)[:200], "trace": _tail(trace)})
                     if sub.get("malformed") and isinstance(e, AssertionError) and str(e).startswith("At line") \
                             and "Not enough qubit addresses" in str(e):
                         bump(faults, "controller-refuses-malformed-request")
